@@ -159,7 +159,11 @@ TFinal ==
   /\ Cur.leaked = 0 /\ Cur.returned /\ ~Cur.broken /\ Cur.subscribers = 0
   /\ UNCHANGED <<vars, pend>>
 
-TVNext == TReset \/ TCall \/ TRet \/ TWd \/ TAck \/ TRecv \/ TQuiescent \/ TFinal
+\* an iterator that was never run is invoked late with a nil yield function: it panics (whether its context is still
+\* live or not); the withdrawal it may perform is announced by a wd line before it
+TLateNil == IsEv("latenil") /\ Consume /\ Cur.panicked /\ UNCHANGED <<vars, pend>>
+
+TVNext == TReset \/ TCall \/ TRet \/ TWd \/ TAck \/ TRecv \/ TLateNil \/ TQuiescent \/ TFinal
 TVSpec == TVInit /\ [][TVNext]_tvars
 Mark ==
   /\ IF l - 1 > TLCGet(1) THEN TLCSet(1, l - 1) ELSE TRUE
